@@ -31,7 +31,7 @@ for sd in sorted(glob.glob(os.path.join(HERE, "seeded", "C*-*"))):
     if ex == 1:
         stats["caught"] += 1
         stats["bounded" if kind.startswith("bounded") else ("deductive_no_input" if "no-failing" in kind else "deductive_replayed")] += 1
-    rnd = {"A": 1, "B": 1, "C": 2, "D": 2, "E": 3, "F": 3, "G": 4, "H": 4}[sid[-1]]
+    rnd = {"A": 1, "B": 1, "C": 2, "D": 2, "E": 3, "F": 3, "G": 4, "H": 4, "I": 5}[sid[-1]]
     name = first.split(" ")[0] if first else ""
     rows.append(f"| {sid} | {rnd} | {(meta.get('summary') or '')[:230].replace('|', '/')} | exit {ex} | {kind} | `{name[:110]}` |")
 out = ["# Seeded property-breaking changes (independent sub-agents; confirmed by us before storing)", "",
